@@ -169,6 +169,7 @@ def handle (c : Case) : Verdict :=
     let mut dead := false
     let mut hang := false
     let mut label := ""
+    let mut inadmissible := false
     let completed := (obsKey c "end").isSome
     if !completed then specWhy := s!"the history did not run to its end: {obsAll.take 80}"
     for op in ops do
@@ -177,7 +178,7 @@ def handle (c : Case) : Verdict :=
       -- the spec's expectation for this step
       let sop := op.toSpec
       let st := sa.fn
-      if !(ByteLog.ok st sop) then specWhy := if specWhy == "" then s!"step {i}: inadmissible history (generator error)" else specWhy
+      if !(ByteLog.ok st sop) then inadmissible := true; break
       let expectThrow := match op with
         | .appendText _ e m (some xs) => (textRendering e m xs).isNone
         | _ => false
@@ -218,10 +219,11 @@ def handle (c : Case) : Verdict :=
               | some why => specWhy := s!"step {i}: {why}"
               | none => pure ()
             | none => specWhy := s!"step {i}: missing snapshot"
-    if isFault && !dead then
+    if isFault && !dead && !inadmissible then
       match parseOp (c.get "op") with
       | none => specWhy := "unparsable op"
       | some op =>
+        if !(ByteLog.ok sa.fn op.toSpec) then inadmissible := true else
         let k := c.nat "k" 1
         let p0 := { p with allocs := 0, failAt := some k }
         let before := sa.fn
@@ -261,6 +263,9 @@ def handle (c : Case) : Verdict :=
     | .fault f _ => out := out ++ s!"end=FAULT:{faultName f}"
     | .throw _ _ => out := out ++ "end=THROW"
     if hang then out := "hang"
+    -- histories no C++ program may perform are not executed by the harness (only shrinking produces them)
+    if inadmissible then
+      return { corr := obsAll == "inadmissible", spec := true, model := "inadmissible", branch := "inadmissible", nontrivial := false }
     if specWhy == "" && (obsKey c "end") != some "clean" then specWhy := "storage leaked or released twice at the end of the history"
     return { corr := out == obsAll, spec := specWhy == "", why := specWhy, model := (out.take 4000).toString,
              branch := s!"{c.op}.{genTag c}{label}", nontrivial := ops.length > 3 }
